@@ -7,7 +7,7 @@
    tied to the interpreter by the evalprog / evalseries correspondence runs (checks/c07.py). *)
 From Coq Require Import List NArith ZArith Bool Permutation Floats.SpecFloat.
 From Falco Require Import Base.Res Base.Bytes Model.Float Model.Acl Model.Val Model.Assign Model.Oper
-  Model.Concat Model.Eval Proofs.AclProofs Proofs.EvalLaws Proofs.EvalBits Proofs.ConcatProofs Proofs.EvalFlow Model.ReGroup Proofs.ReGroupProofs Proofs.FmtProofs Proofs.AssignTableProofs.
+  Model.Concat Model.Eval Proofs.AclProofs Proofs.EvalLaws Proofs.EvalBits Proofs.ConcatProofs Proofs.EvalFlow Model.ReGroup Proofs.ReGroupProofs Proofs.FmtProofs Proofs.AssignTableProofs Proofs.TimeFmtProofs.
 Import ListNotations.
 Local Open Scope Z_scope.
 
@@ -330,13 +330,50 @@ Theorem C07_regroup_last_success_wins : forall g pre l post,
   final g (pre ++ RMatch (Some l) :: post) = l.
 Proof. exact regroup_last_success_wins. Qed.
 
-(* FINDING (recorded, not repaired): INTEGER arithmetic out of range wraps silently - no error, no saturation, no
-   inf flag - although the `> math.MaxInt64` branches of addition.go / subtraction.go / multiplication.go show that
-   saturation with the +inf flag was intended (they are dead code on int64) *)
-Theorem C07_integer_overflow_wraps_refuted :
-  assign (fun _ => None) OpAdd (VInt (2 ^ 62) false false false) (rint (2 ^ 62) false true)
-  = AOk (VInt (- 2 ^ 63) false false false).
-Proof. exact ex_add_wraps. Qed.
+(* ---------------------------------------------------------------- final round: TIME / RTIME / IP renderings *)
+
+(* TIME in string context: the calendar arithmetic of http_time is the proleptic Gregorian calendar for EVERY day number
+   (one 400-year cycle enumerated completely, the rest by periodicity): month and day in range, and the civil date
+   denotes the day *)
+Theorem C07_civil_roundtrip : forall days,
+  let '(y, m, d) := civil days in
+  1 <= m <= 12 /\ 1 <= d <= days_in_month y m /\ days_from_civil y m d = days.
+Proof. exact civil_roundtrip. Qed.
+
+Theorem C07_time_of_day : forall ext, let secs := ext mod 86400 in
+  0 <= secs / 3600 < 24 /\ 0 <= (secs / 60) mod 60 < 60 /\ 0 <= secs mod 60 < 60 /\
+  secs / 3600 * 3600 + (secs / 60) mod 60 * 60 + secs mod 60 = secs /\ (ext / 86400) * 86400 + secs = ext /\
+  0 <= (ext / 86400) mod 7 < 7.
+Proof. exact time_of_day. Qed.
+
+Theorem C07_http_time_shape : forall ext,
+  http_time ext =
+  let days := ext / 86400 in
+  let secs := ext mod 86400 in
+  let '(y, m, d) := civil days in
+  nth (Z.to_nat (days mod 7)) day_names [] ++ ascii [44; 32] ++ pad_int 2 d ++ ascii [32] ++
+  nth (Z.to_nat (m - 1)) month_names [] ++ ascii [32] ++ pad_int 4 y ++ ascii [32] ++
+  pad_int 2 (secs / 3600) ++ colon :: pad_int 2 ((secs / 60) mod 60) ++ colon :: pad_int 2 (secs mod 60) ++
+  ascii [32; 71; 77; 84].
+Proof. exact http_time_shape. Qed.
+
+(* RTIME in string context: whole milliseconds written exactly as seconds with three decimals (enumerated range
+   -16.384 s .. 16.383 s); sub-millisecond parts are dropped *)
+Theorem C07_rtime_three_decimals : forall ms, - 16384 <= ms < 16384 -> rtime_ok ms = true.
+Proof. exact rtime_three_decimals. Qed.
+
+Theorem C07_rtime_drops_submilliseconds : forall ns, rtime_string ns = rtime_string (Z.quot ns 1000000 * 1000000).
+Proof. exact rtime_drops_submilliseconds. Qed.
+
+(* IP in string context: the dotted quad prints the four octets of the address *)
+Theorem C07_ip4_octets : forall b, 0 <= b < 2 ^ 32 ->
+  ((b / 2 ^ 24) mod 256) * 2 ^ 24 + ((b / 2 ^ 16) mod 256) * 2 ^ 16 + ((b / 2 ^ 8) mod 256) * 2 ^ 8 + b mod 256 = b.
+Proof. exact ip4_octets. Qed.
+
+Theorem C07_ip4_string_shape : forall b,
+  ip4_string b = dec_nat ((b / 2 ^ 24) mod 256) ++ dot :: dec_nat ((b / 2 ^ 16) mod 256) ++ dot ::
+                 dec_nat ((b / 2 ^ 8) mod 256) ++ dot :: dec_nat (b mod 256).
+Proof. exact ip4_string_shape. Qed.
 
 Print Assumptions C07_acl_impl_eq_spec.
 Print Assumptions C07_acl_spec_meaning.
@@ -393,4 +430,10 @@ Print Assumptions C07_regroup_kept_on_failure.
 Print Assumptions C07_regroup_replaced_on_success.
 Print Assumptions C07_regroup_call_frame.
 Print Assumptions C07_regroup_last_success_wins.
-Print Assumptions C07_integer_overflow_wraps_refuted.
+Print Assumptions C07_civil_roundtrip.
+Print Assumptions C07_time_of_day.
+Print Assumptions C07_http_time_shape.
+Print Assumptions C07_rtime_three_decimals.
+Print Assumptions C07_rtime_drops_submilliseconds.
+Print Assumptions C07_ip4_octets.
+Print Assumptions C07_ip4_string_shape.
